@@ -26,7 +26,7 @@ StartsFile(id) ==
   \cup {St(0, 493, CfgFile(420, 2000, 2000), 0), St(0, 493, CfgFile(384, 1000, 1000), 0)}
 \* a directory in the way, and a truncated (unparsable) file left by some other tool
 StartsOdd(id) == {St(0, 448, CfgDir(id.uid, id.gid), 0), St(0, 448, [CfgFile(384, id.uid, id.gid) EXCEPT !.n = 0], 0)}
-\* existing files whose owner or group is root while the other is not (finding X02-1), for a root process
+\* existing files whose owner or group is root while the other is not (finding X02-1, fixed in c56fb15), for a root process
 StartsRootGroup == {St(0, 493, CfgFile(432, 0, 2000), 0), St(0, 493, CfgFile(416, 1000, 0), 0)}
 
 C(kind, h, u, v) == [kind |-> kind, h |-> h, u |-> u, v |-> v, val |-> EmptyVal, n |-> 1, fault |-> NoFault]
@@ -55,13 +55,13 @@ RaceCmd == {Scn("race", st, User, 18, <<a, b>>) : st \in RaceStarts,
                                                  a \in {C("login", "A", "u2", ""), C("logout", "A", "", "")},
                                                  b \in {C("login", "B", "u1", ""), C("set", "A", "", "disabled")}}
 RaceFault == {Scn("race", st, User, 18, <<a, Put(VQ, 1)>>) : st \in RaceStarts, a \in WithFaults({Put(VP, 1)})}
-\* the owner classes of finding X02-1 (a counterexample is expected with Variant = "code")
+\* the owner classes of finding X02-1 (hold with Variant = "code"; a counterexample is expected with "asfound")
 RootGroup == {Scn("seq", st, Root, 18, <<c>>) : st \in StartsRootGroup, c \in {C("login", "B", "u1", ""), Put(VP, 1)}}
 
-QuickSet == OneCmdQuick \cup Seq2Quick \cup RacePut(1) \cup RaceCmd
+QuickSet == OneCmdQuick \cup Seq2Quick \cup RacePut(1) \cup RaceCmd \cup RootGroup
 \* the quick tier splits that product: every fault point without a crash, every unfaulted scenario with crashes
 QuickFaultSet == OneCmdQuick
-QuickCrashSet == {s \in OneCmdQuick : s.ws[1].fault.at = "none"} \cup Seq2Quick \cup RacePut(1) \cup RaceCmd
+QuickCrashSet == {s \in OneCmdQuick : s.ws[1].fault.at = "none"} \cup Seq2Quick \cup RacePut(1) \cup RaceCmd \cup RootGroup
 RaceSet == RacePut(2) \cup RaceCmd \cup RaceFault
 \* what the generator prints for the real-code side
 GenSeq == OneCmdQuick \cup Seq2Quick \cup RootGroup
